@@ -169,6 +169,10 @@ func c13(c *an.Ctx) {
 		}
 	})
 
+	c.Check("R-BOOL", "buildDescriptor decision table: every exported, non-embedded, non-excluded field with an SQL type becomes exactly one column (list and name map, under the tag's name or the snake-cased field name, with the field's index and the tag's options); everything else is skipped or rejected; the `primary` option is honoured", 3, func(o *an.O) {
+		ruleBuildDescriptorTable(c, o)
+	})
+
 	c.Check("R-PROV", "Scanner.Scan gives a []byte column a private copy that is non-nil whenever the source is (an empty value must not come back as NULL)", 2, func(o *an.O) {
 		fn := c.NeedFunc(fieldsPkg, "(*Scanner).Scan")
 		isBytes := func(t types.Type) bool {
